@@ -243,10 +243,17 @@ def run(ck, m):
     for q, exc in (("ArgsDataNamespaceMeta.__new__", "RenderArgsDataError"), ("ArgsNamespaceMeta.__new__", "RenderArgsError")):
         fn = m.get(TY, q)
         sup = [c for c in body_walk(fn) if isinstance(c, ast.Call) and norm(c.func) == "super().__new__"]
-        ck.need(len(sup) == 1, f"{q}: super().__new__ not found")
+        ck.need(len(sup) >= 1, f"{q}: super().__new__ not found")
         rs = [r for r in body_walk(fn) if isinstance(r, ast.Raise) and r.exc is not None and exc in norm(r.exc)]
-        pre = [r for r in rs if r.lineno < sup[0].lineno]
-        post = [r for r in rs if r.lineno > sup[0].lineno]
+        # "after creation" = reachable from a statement that calls super().__new__ (a base-case early return may create the class elsewhere)
+        from tiv.cfg import CFG as _CFG
+        g_ = _CFG(fn)
+        sup_nodes = [n_ for n_ in g_.nodes if n_.ast is not None and n_.kind in ("stmt", "test") and any(c_ in sup for c_ in ast.walk(n_.ast))]
+        def _after(r_):
+            rn_ = g_.nodes_of(r_)
+            return g_.search(sup_nodes, lambda x: x in rn_, edge_ok=lambda a, lab, d: not lab.startswith(("e:", "p:"))) is not None
+        post = [r for r in rs if _after(r)]
+        pre = [r for r in rs if r not in post]
         # raises after creation are only allowed if they guard an association write that follows them
         bad_post = [r for r in post if "already has" not in norm(r)]
         ck.ob("R6", fn, bool(pre) and not bad_post, f"{q}: rule violations must be raised before the class object is created ({[short(r, 50) for r in bad_post]} come after super().__new__)",
